@@ -166,9 +166,18 @@ func zzC09_aggregate(n, sigLen, shape int) {
 		case 3: // mismatched lengths
 			msgs = msgs[:n-1]
 			hs = hs[:n-1]
+		case 4: // every signature is the identity signature
+			for i := range sigs {
+				sigs[i] = append([]byte{}, g1Serialization...)
+			}
+		case 5: // the first signature is the identity signature
+			sigs[0] = append([]byte{}, g1Serialization...)
 		}
 	}
 	agg, err := AggregateBLSSignatures(sigs)
+	if n > 0 && shape >= 4 {
+		verifAssert(bAnd(err == nil, len(agg) == SignatureLenBLSBLS12381), "AggregateBLSSignatures: identity signatures are valid inputs")
+	}
 	if n == 0 {
 		verifAssert(IsBLSAggregateEmptyListError(err), "AggregateBLSSignatures: empty list")
 	} else if sigLen != SignatureLenBLSBLS12381 {
